@@ -10,7 +10,8 @@ TRUSTED = ['SipHash collisions are outside the model']
 SPELL = [b'1', b'1.0', b'1e0', b'10e-1', b'2', b'2.50', b'2.5', b'"a"', b'"\\u0061"', '"é"'.encode('utf8'), b'"\\u00e9"', b'null', b'true', b'[1,2]', b'[1.0, 2]', b'[]',
          b'{"a":1}', b'{"a":1.0}', b'{"a":1,"b":[2]}', b'{"a": 1, "b": [2.0]}', b'""', b'[[]]', b'0', b'0.0', b'0e0', b'[0]', b'[0.0]', b'{"a":{"b":1}}', b'{"a":{},"b":1}', b'{"a":{"b":{"c":2}}}', b'{"a":{"b":{}},"c":2}', b'{"a":{"b":{},"c":2}}', b'[[1],[2]]', b'[[1,2]]', b'["ab"]', b'["a","b"]', b'{"k":"x","a":1}', b'{"k":"x","a":1e0}', b'-0', b'-0.0', b'-0e0', b'[-0]', b'{"a":-0}', b'{"a":0}',
          b'{"a":1,"b":[2]}', b'{"b":[2],"a":1}', b'{"a":{"x":1,"y":[{"p":1,"q":2}]},"b":2}', b'{"b":2.0,"a":{"y":[{"q":2,"p":1}],"x":1}}', b'[{"k":"x","a":1}]', b'[{"a":1,"k":"x"}]',
-         b'1e15', b'1000000000000000', b'1.0e15', b'9007199254740991', b'9007199254740991.0', b'9.007199254740991e15', b'1e18', b'1000000000000000000', b'123456789012345680', b'1.2345678901234568e17', b'-1e15', b'-1000000000000000', b'[1e16]', b'[10000000000000000]']
+         b'1e15', b'1000000000000000', b'1.0e15', b'9007199254740991', b'9007199254740991.0', b'9.007199254740991e15', b'1e18', b'1000000000000000000', b'123456789012345680', b'1.2345678901234568e17', b'-1e15', b'-1000000000000000', b'[1e16]', b'[10000000000000000]',
+         b'0.3', b'0.30000000000000004', b'0.1', b'0.10000000000000002', b'1e300', b'1.0000000000000002e300', b'[0.3]', b'[0.30000000000000004]', b'{"a":0.1}', b'{"a":0.10000000000000002}']
 
 def run(ctx):
     rnd = ctx['rnd']; n = 600 if ctx['tier'] == 'quick' else 12000
@@ -49,8 +50,23 @@ def run(ctx):
         same = lib.new_cfg(select=['%s=n' % c for c in cols], unique=True, style='text')
         dist = lib.new_cfg(select=['%s=n%d' % (c, t) for t, c in enumerate(cols)], unique=True, style='text')
         cases.append(mkcase('S%d' % i, same, data)); cases.append(mkcase('T%d' % i, dist, data)); nmeta.append((same, dist, data))
+    # the statement ties --unique to the = function itself: for pairs of values, b is dropped after a exactly when (= a b) is true
+    pmeta = []
+    for i in range(n // 3):
+        a, b = rnd.choice(SPELL), rnd.choice(SPELL)
+        if rnd.random() < 0.3:           # near pairs: neighbours in the list (spellings of the same or of adjacent values)
+            j = rnd.randrange(len(SPELL) - 1); a, b = SPELL[j], SPELL[j + 1]
+        eqc = mkcase('PE%d' % i, lib.new_cfg(select=['(= (get . 0) (get . 1))=eq']), b'[' + a + b',' + b + b']')
+        unc = mkcase('PU%d' % i, lib.new_cfg(unique=True), a + b'\n' + b)
+        cases += [eqc, unc]; pmeta.append((a, b, eqc, unc))
     impl, model, mism = common.correspond(cases)
     violations = []; checked = 0
+    for a, b, eqc, unc in pmeta:
+        e, u = impl[eqc['id']], impl[unc['id']]
+        if e['result'] != 'ok' or u['result'] != 'ok' or not rows(e['stdout']): continue
+        eq = json.loads(rows(e['stdout'])[0]).get('eq'); kept = len(rows(u['stdout'])); checked += 1
+        if (eq is True) != (kept == 1):
+            violations.append(viol(unc['cfg'], unc['inputs'][0]['data'], 'two values are duplicates for --unique exactly when the = function says they are equal', '(= a b) is %s, --unique keeps %d rows' % (json.dumps(eq), kept), '= true <-> one row'))
     for i, (same, dist, data) in enumerate(nmeta):
         a, b = impl['S%d' % i], impl['T%d' % i]; checked += 1
         if (a['result'], a['stdout']) != (b['result'], b['stdout']):
